@@ -4,14 +4,21 @@ Tie (DESIGN.md §3 C14):
   model   lean/AriadneModel/Model/CustomGen.lean  (schema -> generated builder classes)
           lean/AriadneModel/Model/Builder.lean    (GraphQLField objects, shared class-level objects in a
                                                    store, to_ast / get_formatted_variables, client assembly)
+          lean/AriadneModel/Model/BuilderLet.lean (programs with PYTHON VARIABLES: objects that outlive an operation)
           lean/AriadneModel/Spec/BuilderDoc.lean  (validator, resolved documents, finding triggers)
+          lean/AriadneModel/Spec/BuilderLetDoc.lean (F6 trigger)
   impl    random schema -> REAL generator (enable_custom_operations, sync and async) in a forked child ->
           the generated classes are inspected with `ast` (which accessor is a class-level object, which a
           classmethod; field_name constants; recorded argument types) -> random builder expressions and
           random HISTORIES are evaluated against the real generated classes, each sequence in its own
           forked grandchild (pristine class-level state), the request is captured through
           httpx.MockTransport and the sent query is parsed with graphql-core into a document IR.
-  compared  (a) package table  (b) per operation: document IR + variables JSON, or the exception class
+          flavours of sequences: clean / wild / one finding region at a time / deep / deliberately ill-formed /
+          directed (objects with arguments kept in variables and re-used in later operations under other top-level
+          indices) / varmut (alias applied through a variable in an ASSIGNMENT: model compared, oracle off) /
+          crowded (2-3 top-level fields whose trees repeat argument names).
+  compared  (a) package table  (b) per operation: the request (document IR + variables JSON + operationName), or the
+            exception class
             (c) finding triggers (Lean predicates vs the Python classifier)
             (d) Spec validator vs graphql-core `validate` (all rules but OverlappingFieldsCanBeMerged)
   oracle    the property itself, independent of the Lean model: the sent document parses, validates under the
@@ -507,7 +514,9 @@ class ExprGen:
         fields = self.idx[tname]["fields"] if root else combined_fields(self.s, tname)
         out = []
         for acc in self.table[cls]["accessors"]:
-            if acc.get("anomaly"):
+            # an accessor whose generated body deviates from what the model reads (`anomaly`) is reported through the
+            # package-table observation; it is still used here, so that the oracle sees what it does to real documents
+            if acc.get("fieldName") is None or acc.get("cls") == "?":
                 continue
             for f in fields:
                 if (f["opPy"] if root else f["py"]) == acc["attr"]:
@@ -729,7 +738,7 @@ class ExprGen:
         taken: set = set()
         fields = []
         self.pending = []
-        for _ in range(rng.choice([1, 1, 2, 2, 3])):
+        for _ in range(rng.choice(self.mode.get("n_top", [1, 1, 2, 2, 3]))):
             n = self.top(root_cls, root_type, rng.choice(self.mode["depths"]), taken)
             if n is not None:
                 fields.append(n)
@@ -754,6 +763,12 @@ class ExprGen:
         elif flavour == "wild":
             self.mode = {"clean": False, "avoid_camel": False, "avoid_list": False, "p_arg": 0.6,
                          "p_alias": 0.35, "depths": [2, 3, 4]}
+        elif flavour == "directed":  # objects that OUTLIVE an operation: kept in variables, given arguments, used again
+            self.mode = {"clean": True, "avoid_camel": True, "avoid_list": True, "p_arg": 0.9, "p_arg_deep": 0.9,
+                         "p_alias": 0.2, "depths": [2, 3, 4]}
+        elif flavour == "crowded":  # several top-level fields whose trees repeat argument names: the variable-name machinery
+            self.mode = {"clean": True, "avoid_camel": True, "avoid_list": True, "p_arg": 0.95, "p_arg_deep": 0.95,
+                         "p_alias": 0.3, "depths": [2, 3, 4], "n_top": [2, 3, 3]}
         elif flavour == "deep":  # inside the old F2 region, outside every open trigger: deep trees, arguments given low down
             self.mode = {"clean": True, "avoid_camel": True, "avoid_list": True, "p_arg": 0.5, "p_arg_deep": 0.95,
                          "p_alias": 0.3, "depths": [3, 4, 5, 6]}
@@ -765,14 +780,15 @@ class ExprGen:
         _ = rng
 
     def sequence(self, flavour: str) -> List[Dict[str, Any]]:
-        self.set_mode("wild" if flavour == "illformed" else flavour)
+        self.set_mode("wild" if flavour == "illformed" else "directed" if flavour == "varmut" else flavour)
         self.vars = {}
         self.pending = []
         # python variables: in 40 % of the sequences (never in the deliberately ill-formed ones) objects returned by
         # classmethods are kept in variables and used again - in the same operation and in later ones
-        with_vars = flavour != "illformed" and self.rng.random() < 0.4
-        self.p_hoist = 0.3 if with_vars else 0.0
-        self.p_reuse = 0.5 if with_vars else 0.0
+        directed = flavour in ("directed", "varmut")
+        with_vars = directed or (flavour != "illformed" and self.rng.random() < 0.4)
+        self.p_hoist = (0.6 if directed else 0.3) if with_vars else 0.0
+        self.p_reuse = (0.8 if directed else 0.5) if with_vars else 0.0
         n_hist = self.rng.choice([1, 2, 2, 3]) if with_vars else self.rng.choice([0, 1, 1, 2, 3])
         ops = []
         for i in range(n_hist + 1):
@@ -781,7 +797,27 @@ class ExprGen:
                 if flavour == "illformed" and self.rng.random() < 0.6:
                     self.break_op(o)
                 ops.append(o)
+        if flavour == "varmut":
+            self.mutate_through_variables(ops)
         return ops
+
+    def mutate_through_variables(self, ops: List[Dict[str, Any]]) -> None:
+        """`w = v.alias("z")` in an ASSIGNMENT: the object of `v` is mutated in place (and gets a second name).  The model
+        (evalP / mutate on a store object) is compared on every operation of such a sequence; the oracle is not applied:
+        what `v` means afterwards is the caller's business (the theorem history_free_owned covers these programs)."""
+        rng = self.rng
+        known: List[str] = []
+        n = 0
+        for o in ops:
+            known += [name for name, _ in o.get("lets", [])]
+            if known and rng.random() < 0.7:
+                n += 1
+                v = rng.choice(known)
+                o.setdefault("lets", []).append([f"w{n}", {"var": v, "calls": [["alias", f"z{n}"]]}])
+                known.append(f"w{n}")
+        if n:
+            for o in ops:
+                o["modelOnly"] = True
 
     def break_op(self, op: Dict[str, Any]) -> None:
         """make the expression ill-formed for the generated classes (compared with the model's AttributeError /
@@ -846,7 +882,10 @@ def expand_se(se: Dict[str, Any], defs: Dict[str, Dict[str, Any]]) -> Dict[str, 
     the root of every copy is marked with `fromVar`"""
     if is_var(se):
         out = expand_se(defs[se["var"]], defs)
-        out["fromVar"] = se["var"]
+        if not is_var(defs[se["var"]]):  # `w = v.alias(...)` gives the OBJECT of v one more name: its identity stays v
+            out["fromVar"] = se["var"]
+        if se.get("calls"):
+            out["calls"] = out["calls"] + [list(c) for c in se["calls"]]
         return out
     out = dict(se)
     out.pop("fromVar", None)
@@ -885,9 +924,9 @@ def owned_reuse(xop: Dict[str, Any]) -> bool:
 def se_to_expr(se: Dict[str, Any]) -> Dict[str, Any]:
     """the python expression (as the JSON the Lean driver and the interpreter below both read)"""
     if is_var(se):
-        return {"k": "var", "x": se["var"]}
-    if se["kind"] == "shared":
-        e: Dict[str, Any] = {"k": "attr", "cls": se["cls"], "attr": se["attr"]}
+        e: Dict[str, Any] = {"k": "var", "x": se["var"]}
+    elif se["kind"] == "shared":
+        e = {"k": "attr", "cls": se["cls"], "attr": se["attr"]}
     else:
         kw = []
         for name, val in se["args"]:
@@ -895,7 +934,7 @@ def se_to_expr(se: Dict[str, Any]) -> Dict[str, Any]:
                 continue
             kw.append([se["params"][name], wire.enc(val), se["convs"].get(name)])
         e = {"k": "call", "cls": se["cls"], "attr": se["attr"], "kw": kw}
-    for c in se["calls"]:
+    for c in se.get("calls", []):
         if c[0] == "alias":
             e = {"k": "alias", "e": e, "a": c[1]}
         elif c[0] == "fields":
@@ -1278,7 +1317,9 @@ def schema_case(root: Path, seed: str, budget: Dict[str, int], fixed: Optional[D
     else:
         gen = ExprGen(rng, schema, table)
         flavours = (["clean"] * budget["clean"] + ["wild"] * budget["wild"] + ["list", "camel", "shared"] * budget["each"]
-                    + ["deep"] * budget.get("deep", 3 * budget["each"]) + ["illformed"] * budget.get("ill", 1))
+                    + ["deep"] * budget.get("deep", 3 * budget["each"]) + ["illformed"] * budget.get("ill", 1)
+                    + ["directed"] * budget.get("directed", 0) + ["varmut"] * budget.get("varmut", 0)
+                    + ["crowded"] * budget.get("crowded", 0))
         seqs = []
         for fl in flavours:
             ops = gen.sequence(fl)
@@ -1415,7 +1456,10 @@ def impl_obs(a: Dict[str, Any]) -> Dict[str, Any]:
         return {"error": a["error"]}
     if "parseError" in a:
         return {"parseError": a["parseError"], "query": a["query"]}
-    return a["ir"]
+    if "parseError" in a["ir"]:
+        return a["ir"]
+    # the request as `execute` received it: document IR + variables ("values") + operationName of the payload
+    return {**a["ir"], "operationName": a.get("operationName")}
 
 
 def compare_rsel(doc: Dict[str, Any], want: List[Dict[str, Any]]) -> List[str]:
@@ -1627,10 +1671,12 @@ def process_case(ctx: Ctx, res: Result, case: Dict[str, Any], model: Optional[Di
                 trig = classify(xops[:k], xo)  # decided on the input alone; used to attribute failures to findings
                 lean_view = dict(trig)       # the Lean side states F5 on the document the operation produces
                 lean_view["nameClash"] = doc_clash(a.get("ir"))
-                if lean_view["nameClash"] != trig["nameClash"] and not trig["sharedMut"] and not o.get("illFormed"):
+                skip_oracle = bool(o.get("illFormed") or o.get("modelOnly"))
+                if lean_view["nameClash"] != trig["nameClash"] and not trig["sharedMut"] and not skip_oracle:
                     res.mismatches.append(Mismatch("nameClash: names simulated on the expression vs names in the sent document",
                                                    {**base_input, "client": kind, "sequence": si, "op": k}, lean_view["nameClash"], trig["nameClash"]))
                 inp = {**base_input, "client": kind, "sequence": si, "op": k, "flavour": sq["flavour"],
+                       "triggers": [x for x, v in trig.items() if v],
                        "replay": {"schema": strip_py(case["schema"]), "seqs": [{"flavour": sq["flavour"], "ops": ops[: k + 1]}]}}
                 res.seen([case["seed"], si, k, kind], True)
                 deep = deep_region(xo)
@@ -1640,7 +1686,7 @@ def process_case(ctx: Ctx, res: Result, case: Dict[str, Any], model: Optional[Di
                     for t, v in trig.items():
                         if v:
                             res.count("trigger:" + t)
-                    if deep and not o.get("illFormed"):
+                    if deep and not skip_oracle:
                         res.count("region:old-F2 (argument below level 2; fixed by dfbc7ef)")
                         if not any(trig.values()):
                             res.count("region:old-F2 and outside every open trigger (gained by the theorem)")
@@ -1648,9 +1694,13 @@ def process_case(ctx: Ctx, res: Result, case: Dict[str, Any], model: Optional[Di
                                 res.count("region:old-F2, outside every open trigger, with inline fragments")
                     if not any(trig.values()):
                         res.count("ops-outside-every-trigger")
-                        proved = not any(m for h in xops[: k + 1] for _, _, m in shared_occurrences(h))
+                        # Proved_14: the operation ITSELF applies no mutator to a class-level object (the history is
+                        # constrained by the F4 trigger alone: theorem history_free_outside_F4)
+                        proved = not any(m for _, _, m in shared_occurrences(xo))
                         res.count("region:theorem (Supported_14 and Proved_14)" if proved
-                                  else "region:supported-but-unproved (a class-level object is mutated, never re-used)")
+                                  else "region:supported-but-unproved (the operation mutates a class-level object it uses once)")
+                        if proved and any(m for h in xops[:k] for _, _, m in shared_occurrences(h)):
+                            res.count("region:theorem, after a history that mutated OTHER class-level objects (gained by history_free_outside_F4)")
                     else:
                         res.count("region:finding")
                     res.count("op-depth:%d" % max(d for f in xo["fields"] for _, d in walk_se(f)))
@@ -1660,7 +1710,7 @@ def process_case(ctx: Ctx, res: Result, case: Dict[str, Any], model: Optional[Di
                     elif "error" in a:
                         res.count("doc:raises:" + a["error"])
                 # correspondence
-                judged = [] if o.get("illFormed") else judge_op(a, fresh, wants[k], o["name"])
+                judged = [] if skip_oracle else judge_op(a, fresh, wants[k], o["name"])
                 if m_hist is not None:
                     mo = m_hist[k]
                     # DESIGN.md 1.4: a disagreement INSIDE a finding region where the implementation now satisfies the
@@ -1682,6 +1732,9 @@ def process_case(ctx: Ctx, res: Result, case: Dict[str, Any], model: Optional[Di
                         if len(res.samples) < 4 and "ir" in a and a["ir"]["varDefs"] and not any(trig.values()):
                             res.sample({"query": a["query"], "variables": a["ir"]["values"], "model": model_doc(mo)})
                 # oracle
+                if o.get("modelOnly"):
+                    res.count("op:of a sequence that mutates through a variable in an assignment (model compared, oracle not applicable)")
+                    continue
                 if o.get("illFormed"):
                     res.count("op:deliberately-ill-formed (model compared, oracle not applicable)")
                     continue
@@ -1825,9 +1878,19 @@ def run(ctx: Ctx, st: Optional[LeanStatus]) -> Result:
     replay_corpus(ctx, st, res)
     formatter_table(ctx, st, res)
     n_schemas = ctx.budget(28, 240)
-    budget = {"clean": ctx.budget(8, 10), "wild": ctx.budget(6, 8), "each": ctx.budget(1, 2)}
+    budget = {"clean": ctx.budget(8, 10), "wild": ctx.budget(6, 8), "each": ctx.budget(1, 2), "directed": ctx.budget(1, 2),
+              "varmut": ctx.budget(1, 2), "crowded": ctx.budget(1, 2)}
     jobs = [(f"{ctx.prop}:{ctx.seed}:schema:{i}", budget, None) for i in range(n_schemas)]
-    run_cases(ctx, st, res, jobs, "random")
+    if ctx.tier == "thorough":
+        run_cases(ctx, st, res, jobs, "random")
+    else:
+        # quick tier (the budget may have been boosted by a changed fingerprint): in slices, and no further once a
+        # concrete failing input that no finding explains is on the table - the verdict is settled, the replay exists
+        for lo in range(0, n_schemas, 28):
+            if unexplained(ctx, res):
+                ctx.log(f"a failing input outside every finding is known after {lo} schemas: random budget cut short")
+                break
+            run_cases(ctx, st, res, jobs[lo: lo + 28], "random")
     res.oracle_only += [
         "serialisation of argument values (enum members, input models) into the variables JSON is the base client's (C03/C11); here the sent JSON is compared with the caller's JSON value",
         "print_ast / parse of graphql-core: the document IR is read back from the query text that was sent",
@@ -1844,9 +1907,12 @@ def run(ctx: Ctx, st: Optional[LeanStatus]) -> Result:
         "note": "the theorem region (Supported_14 and Proved_14) now contains these operations; the witness of the fixed "
                 "finding is replayed on every run and a failure on it is reported with trigger=None (VIOLATION)",
     }
-    res.extra["unproved_region"] = ("C14_partial is proved under Proved_14 (no alias/on applied to a class-level object anywhere in the history or "
-                                    "the operation); operations outside every finding trigger that do mutate a class-level object which is never "
-                                    "re-used are covered by correspondence and oracle only (counted as region:supported-but-unproved)")
+    res.extra["unproved_region"] = ("C14_partial is proved under Proved_14 (the operation itself applies no alias/on to a class-level object; the "
+                                    "history is constrained by the F4 trigger alone since history_free_outside_F4); operations outside every finding "
+                                    "trigger that apply alias/on to a class-level accessor they use exactly once are covered by correspondence and "
+                                    "oracle only (counted as region:supported-but-unproved). Programs with python variables: history-freedom is "
+                                    "proved (history_free_owned); that the document of re-used objects equals the document of the written-out "
+                                    "expression outside the F6 trigger is covered by correspondence and oracle only")
     res.assumptions += [
         "objects returned by generated classmethods are used once OR kept in python variables and used again unchanged, any number of times, in the same and in later operations (no alias/fields/on applied THROUGH a variable); class-level objects may be used anywhere, any number of times",
         "expression depth stays far below CPython's recursion limit",
@@ -1855,13 +1921,200 @@ def run(ctx: Ctx, st: Optional[LeanStatus]) -> Result:
     return res
 
 
+def unexplained(ctx: Ctx, res: Result) -> List[Failure]:
+    """oracle failures that no open finding explains"""
+    findings = common.load_findings(ctx.prop)
+    return [f for f in res.failures if common.match_finding(f, findings) is None]
+
+
 def search(ctx: Ctx) -> Result:
-    """after a broken proof / correspondence: judge the real code with the thorough budget (oracle only)"""
+    """after a broken proof / correspondence: judge the real code (oracle only), most specific generators first, stop at
+    the first failing input no finding explains, and shrink it.
+      phase 1  DIRECTED at the state C14 names: (a) objects that outlive an operation (_alias/_subfields/_inline_fragments/
+               formatted_variables on field objects): every sequence keeps objects with arguments in python variables and
+               uses them again in later operations under other top-level indices (other variable suffixes); (b) the set of
+               used variable names: "crowded" operations of 2-3 top-level fields whose trees repeat argument names;
+      phase 2  the general generators (all flavours), in slices."""
     res = Result()
-    budget = {"clean": 10, "wild": 8, "each": 2}
-    jobs = [(f"{ctx.prop}:{ctx.seed}:search:{i}", budget, None) for i in range(120)]
-    run_cases(ctx, None, res, jobs, "search")
+    found: List[Failure] = []
+    for rnd in range(3):
+        budget = {"clean": 0, "wild": 0, "each": 0, "deep": 0, "ill": 0, "directed": 7, "crowded": 7}
+        jobs = [(f"{ctx.prop}:{ctx.seed}:search-directed:{rnd}:{i}", budget, None) for i in range(8)]
+        sub = Result()
+        run_cases(ctx, None, sub, jobs, "search-directed")
+        res.merge(sub)
+        found = unexplained(ctx, sub)
+        if found:
+            break
+    if not found:
+        budget = {"clean": 10, "wild": 8, "each": 2, "directed": 2}
+        for sl in range(6):
+            jobs = [(f"{ctx.prop}:{ctx.seed}:search:{i}", budget, None) for i in range(sl * 20, sl * 20 + 20)]
+            sub = Result()
+            run_cases(ctx, None, sub, jobs, "search")
+            res.merge(sub)
+            found = unexplained(ctx, sub)
+            if found:
+                break
+    # shrink one failing input per signature and put it FIRST (it becomes the replay of that signature); inputs outside
+    # every finding region before inputs inside one
+    found.sort(key=lambda f: len(f.input.get("triggers", [])) if isinstance(f.input, dict) else 0)
+    shrunk: List[Failure] = []
+    seen = set()
+    for f in found:
+        if f.key() in seen or len(shrunk) >= 3:
+            continue
+        seen.add(f.key())
+        try:
+            g = shrink_failure(ctx, f)
+        except Exception as e:  # noqa: BLE001 - shrinking is a convenience, never a verdict
+            ctx.log(f"shrinking raised {e!r}")
+            g = None
+        if g is not None:
+            shrunk.append(g)
+    res.failures = shrunk + res.failures
     return res
+
+
+def _fails_like(ctx: Ctx, fixed: Dict[str, Any], want: Failure) -> Optional[Failure]:
+    """does the LAST operation of the (one) sequence of `fixed` still fail with the same signature, unexplained?"""
+    status, case = engine.forked(schema_case, "shrink", {"clean": 0, "wild": 0, "each": 0}, fixed, timeout=600)
+    if status != "ok" or "runs" not in case:
+        return None
+    sub = Result()
+    try:
+        process_case(ctx, sub, case, None, "shrink")
+    except common.Infra:
+        return None
+    last = len(fixed["seqs"][0]["ops"]) - 1
+    for f in unexplained(ctx, sub):
+        if f.signature == want.signature and f.input.get("op") == last and f.input.get("client") == want.input.get("client"):
+            return f
+    return None
+
+
+def _vars_used(se: Dict[str, Any]) -> List[str]:
+    if is_var(se):
+        return [se["var"]]
+    out: List[str] = []
+    for c in se_children(se):
+        out += _vars_used(c)
+    return out
+
+
+def _strip_se(se: Dict[str, Any]) -> Dict[str, Any]:
+    """an SE as the generator wrote it (without what finish_se attached)"""
+    if is_var(se):
+        return {"var": se["var"], "calls": [list(c) for c in se["calls"]]} if se.get("calls") else {"var": se["var"]}
+    out = {k: se[k] for k in ("cls", "attr", "field", "args", "explicitNone") if k in se}
+    calls = []
+    for c in se["calls"]:
+        if c[0] == "fields":
+            calls.append(["fields", [_strip_se(x) for x in c[1]]])
+        elif c[0] == "on":
+            calls.append(["on", c[1], [_strip_se(x) for x in c[2]]])
+        else:
+            calls.append(list(c))
+    out["calls"] = calls
+    return out
+
+
+def render_program(ops: List[Dict[str, Any]]) -> List[str]:
+    """the sequence as the python script it stands for (for the reader of a replay file)"""
+    def show(se: Dict[str, Any]) -> str:
+        if is_var(se):
+            out = se["var"]
+        else:
+            shared = se.get("kind") == "shared"
+            args = ", ".join(f"{se.get('params', {}).get(k, k)}={v!r}" for k, v in se.get("args", [])
+                             if v is not None or se.get("explicitNone"))
+            out = f"{se['cls']}.{se['attr']}" + ("" if shared else f"({args})")
+        for c in se.get("calls", []):
+            if c[0] == "alias":
+                out += f".alias({c[1]!r})"
+            elif c[0] == "fields":
+                out += ".fields(" + ", ".join(show(x) for x in c[1]) + ")"
+            else:
+                out += f".on({c[1]!r}, " + ", ".join(show(x) for x in c[2]) + ")"
+        return out
+
+    lines: List[str] = []
+    for o in ops:
+        for name, d in o.get("lets", []):
+            lines.append(f"{name} = {show(d)}")
+        lines.append(f"client.{o['type']}(" + ", ".join(show(x) for x in o["fields"]) + f", operation_name={o['name']!r})")
+    return lines
+
+
+def shrink_failure(ctx: Ctx, f: Failure, max_runs: int = 30) -> Optional[Failure]:
+    """greedy: drop whole earlier operations (their assignments move to the next one), drop top-level fields, drop
+    assignments nobody reads - as long as the last operation keeps failing the same way on the REAL code"""
+    rp = f.input.get("replay") if isinstance(f.input, dict) else None
+    if not rp or not rp.get("seqs"):
+        return None
+    schema = rp["schema"]
+    ops = [{"type": o["type"], "name": o["name"], "fields": [_strip_se(x) for x in o["fields"]],
+            "lets": [[n, _strip_se(d)] for n, d in o.get("lets", [])]} for o in rp["seqs"][0]["ops"]]
+    runs = 0
+
+    def attempt(cand: List[Dict[str, Any]]) -> Optional[Failure]:
+        nonlocal runs
+        runs += 1
+        fixed = {"schema": copy.deepcopy(schema), "seqs": [{"flavour": "shrunk", "ops": copy.deepcopy(cand)}]}
+        return _fails_like(ctx, fixed, f)
+
+    best = attempt(ops)
+    if best is None:
+        return None
+    progress = True
+    while progress and runs < max_runs:
+        progress = False
+        # (a) drop an earlier operation; what it assigned stays assigned
+        for i in range(len(ops) - 1):
+            cand = copy.deepcopy(ops)
+            gone = cand.pop(i)
+            cand[i]["lets"] = gone.get("lets", []) + cand[i].get("lets", [])
+            g = attempt(cand) if runs < max_runs else None
+            if g is not None:
+                ops, best, progress = cand, g, True
+                break
+        if progress:
+            continue
+        # (b) drop a top-level field
+        for i, o in enumerate(ops):
+            if len(o["fields"]) < 2:
+                continue
+            for j in range(len(o["fields"])):
+                cand = copy.deepcopy(ops)
+                del cand[i]["fields"][j]
+                g = attempt(cand) if runs < max_runs else None
+                if g is not None:
+                    ops, best, progress = cand, g, True
+                    break
+            if progress:
+                break
+        if progress:
+            continue
+        # (c) drop an assignment nobody reads
+        used = set()
+        for o in ops:
+            for _, d in o.get("lets", []):
+                used.update(_vars_used(d))
+            for x in o["fields"]:
+                used.update(_vars_used(x))
+        for i, o in enumerate(ops):
+            keep = [l for l in o.get("lets", []) if l[0] in used]
+            if len(keep) != len(o.get("lets", [])):
+                cand = copy.deepcopy(ops)
+                cand[i]["lets"] = keep
+                g = attempt(cand) if runs < max_runs else None
+                if g is not None:
+                    ops, best, progress = cand, g, True
+                    break
+    best.detail = f"(shrunk by the search in {runs} runs of the real code) " + best.detail
+    if isinstance(best.input, dict) and best.input.get("replay"):
+        best.input["program"] = render_program(best.input["replay"]["seqs"][0]["ops"])
+    return best
 
 
 def replay(ctx: Ctx, payload: Dict[str, Any]) -> int:
